@@ -2056,7 +2056,7 @@ def run_transl_hrnp(ctx):
         return
     from okdmr.dmrlib.hytera.pdu.hrnp import HRNP as _HRNP
     rng = ctx.rng
-    data = [b"", b"\x00", b"\xff", b"\xff" * 2, b"\xff" * 9, bytes.fromhex("7e0400fe20100000000c"), b"\xff" * 131072]
+    data = [b"", b"\x00", b"\xff", b"\xff" * 2, b"\xff" * 9, bytes.fromhex("7e0400fe20100000000c"), bytes.fromhex("ffffffff0001"), bytes.fromhex("ffffffffffff0003"), b"\xff" * (131072 if ctx.thorough() else 2048)]
     data += [bytes(rng.choice((0, 0xFF, 0xFE, 1, rng.randrange(256))) for _ in range(rng.randrange(0, 60))) for _ in range(ctx.budget(300, 3000))]
     pairs = []
     for d in data:
